@@ -333,13 +333,13 @@ func All() []Scenario {
 			Note: "producer (r2owa) -> bond -> consumer (i2rw, inc, r2owa) -> BM output"},
 		{Name: "prodcons-opyield", Sims: one(ProdCons()), OpYield: true, Ticks: [2]int{4, 5}, Bound: [2]int{2, 3},
 			Note: "producer/consumer pair, every opcode execution is a scheduling point"},
-		{Name: "twovm-same", Sims: []Sim{{Def: Indep(progB)}, {Def: Indep(progB), Share: 1}}, Ticks: [2]int{2, 3}, Bound: [2]int{2, 2},
+		{Name: "twovm-same", Sims: []Sim{{Def: Indep(progB)}, {Def: Indep(progB), Share: 1}}, Ticks: [2]int{2, 3}, Bound: [2]int{2, 3},
 			Note: "two caller goroutines simulate the SAME *Bondmachine object concurrently"},
 		{Name: "twovm-diff", Sims: []Sim{{Def: Indep(progA), Rules: []string{"config:show_pc"}}, {Def: Indep(progC)}}, Ticks: [2]int{2, 3}, Bound: [2]int{2, 2},
 			Note: "two caller goroutines simulate different machines concurrently"},
-		{Name: "twovm-pipe", Sims: []Sim{{Def: Indep(pipeProgShort("addp"))}, {Def: Indep(pipeProgShort("addp"))}}, Ticks: [2]int{2, 3}, Bound: [2]int{2, 2},
+		{Name: "twovm-pipe", Sims: []Sim{{Def: Indep(pipeProgShort("addp"))}, {Def: Indep(pipeProgShort("addp"))}}, Ticks: [2]int{2, 3}, Bound: [2]int{2, 3},
 			Note: "two concurrent simulations of one-processor machines that both use addp"},
-		{Name: "twosps-same", Sims: []Sim{{Def: InOut(spsProg), SPS: true, Input: []string{"5"}}, {Def: InOut(spsProg), Share: 1, SPS: true, Input: []string{"9"}}}, Bound: [2]int{1, 2},
+		{Name: "twosps-same", Sims: []Sim{{Def: InOut(spsProg), SPS: true, Input: []string{"5"}}, {Def: InOut(spsProg), Share: 1, SPS: true, Input: []string{"9"}}}, Bound: [2]int{1, 3},
 			Note: "two concurrent SinglePipelineSimulate calls on the same machine, different stimuli (as cmd/simfinetune does)"},
 		{Name: "twosps-diff", Sims: []Sim{{Def: InOut(spsProg), SPS: true, Input: []string{"5"}}, {Def: InOut(spsProg2), SPS: true, Input: []string{"7"}}}, Bound: [2]int{1, 2},
 			Note: "two concurrent SinglePipelineSimulate calls on different machines"},
